@@ -3,11 +3,11 @@ CONSTANTS
   Servers = {"A", "B"}
   ConsumerSet = {"c1", "c2", "c3"}
   StreamSet = {"sa", "sb"}
-  MaxParts = 2
-  MaxOps = 5
-  MaxDeletes = 1
+  MaxParts = 3
+  MaxOps = 6
+  MaxDeletes = 2
   Coords = {"A", "X"}
-  GetDs = {0}
+  GetDs = {0, 1}
 INVARIANTS Inv_ExactlyOne Inv_NoForeign Inv_AssignedExist Inv_Balanced Inv_SameEpochSame Inv_Converged Inv_Impl
 PROPERTIES StepsOK
 VIEW MCView
